@@ -212,9 +212,22 @@ def _att_cases(ctx, n):
     rng = ctx.rng
     for _ in range(n):
         lu = lambda lo, hi: math.exp(rng.uniform(math.log(lo), math.log(hi)))  # noqa: E731
+        u_l = rng.choice(LEN_UNITS)
+        dt = rng.choice(['float64', 'float64', 'float32', 'int64', 'int32'])
+        lam = lu(0.05, 50)
+        if dt.startswith('int'):
+            # integer wavelengths: 1..50 angstrom expressed in a unit where that is a whole number
+            u_l = rng.choice(['angstrom', 'pm', 'angstrom'])
+            lam = float(rng.randint(1, 50) if u_l == 'angstrom' else rng.randint(5, 5000))
+        elif dt == 'float32':
+            import numpy as np
+
+            lam = float(np.float32(lam * float(1 / _scale(u_l, 'angstrom'))))
+        else:
+            lam = lam * float(1 / _scale(u_l, 'angstrom'))
         yield dict(
-            n=lu(1e-4, 10), sig_s=lu(1e-3, 1e3), sig_a=lu(1e-4, 1e5), lam=lu(0.05, 50),
-            u_n=rng.choice(DENS_UNITS), u_s=rng.choice(XS_UNITS), u_a=rng.choice(XS_UNITS), u_l=rng.choice(LEN_UNITS),
+            n=lu(1e-4, 10), sig_s=lu(1e-3, 1e3), sig_a=lu(1e-4, 1e5), lam=lam, dt=dt,
+            u_n=rng.choice(DENS_UNITS), u_s=rng.choice(XS_UNITS), u_a=rng.choice(XS_UNITS), u_l=u_l,
         )
 
 
@@ -229,7 +242,7 @@ def _impl_attenuation(c):
         absorption_cross_section=sc.scalar(c['sig_a'], unit=c['u_a']),
     )
     m = Material(scattering_params=p, effective_sample_number_density=sc.scalar(c['n'], unit=c['u_n']))
-    return m.attenuation_coefficient(sc.scalar(c['lam'], unit=c['u_l']))
+    return m.attenuation_coefficient(sc.scalar(c['lam'], unit=c['u_l'], dtype=c.get('dt', 'float64')))
 
 
 def _exact_attenuation(c, lam_ref=Fraction(17982, 10000)):
@@ -262,8 +275,10 @@ def _correspond_attenuation(ctx):
             continue
         model_val = unbits(out) * float(_scale(c['u_n'], '1/m**3')) * float(_scale(c['u_s'], 'm**2'))
         impl_val = float(r_m.value)
-        if not (abs(impl_val - model_val) <= 1e-12 * abs(model_val)):
-            ctx.disagree({'op': 'att', **c}, impl_val, model_val, 'relative difference above 1e-12')
+        tol = 1e-12 if str(r.dtype) == 'float64' else 1e-6
+        ctx.count('att-dtype:' + c['dt'] + '->' + str(r.dtype))
+        if not (abs(impl_val - model_val) <= tol * abs(model_val)):
+            ctx.disagree({'op': 'att', **c}, impl_val, model_val, f'relative difference above {tol}')
 
 
 # ---- direct oracle -------------------------------------------------------------------------
@@ -339,7 +354,8 @@ def oracle(ctx, deep):
             ctx.violation('C20:attenuation-unit', f'attenuation coefficient not an inverse length: {r.unit} ({e!r})', c)
             continue
         exact = _exact_attenuation(c)
-        if abs(v - exact) > Fraction(1, 10**11) * abs(exact):
+        tol = Fraction(1, 10**11) if str(r.dtype) == 'float64' else Fraction(1, 10**5)
+        if abs(v - exact) > tol * abs(exact):
             ctx.violation('C20:attenuation-law', 'attenuation coefficient differs from n*(sigma_s + sigma_a*lambda/1.7982A)',
                           {**c, 'got_per_m': float(v), 'expected_per_m': float(exact)})
 
@@ -358,13 +374,14 @@ def replay(ctx, payload):
         import scipp as sc
 
         c = {k: w[k] for k in ('n', 'sig_s', 'sig_a', 'lam', 'u_n', 'u_s', 'u_a', 'u_l')}
+        c['dt'] = w.get('dt', 'float64')
         r = _impl_attenuation(c)
         try:
             v = Fraction(float(sc.to_unit(r, '1/m').value))
         except Exception:  # noqa: BLE001
             return True
         exact = _exact_attenuation(c)
-        return abs(v - exact) > Fraction(1, 10**11) * abs(exact)
+        return abs(v - exact) > (Fraction(1, 10**11) if str(r.dtype) == 'float64' else Fraction(1, 10**5)) * abs(exact)
     print('no specific replay for key', key)
     return False
 
